@@ -9,6 +9,7 @@ import (
 	"fmt"
 	"math/rand"
 	"os"
+	"strings"
 	"sync"
 
 	"github.com/smart-core-os/sc-golang/pkg/trait/electricpb"
@@ -32,7 +33,7 @@ type pend struct {
 }
 
 func (rn *runner) do(cfg config, seq []op, tie *lib.Tie, class string) {
-	obs := runSeq(cfg, seq)
+	obs := runSeqMon(rn.mon, cfg, seq)
 	key := cfg.line() + "\n"
 	for _, o := range seq {
 		key += o.line() + "\n"
@@ -107,7 +108,7 @@ func alphabet(cfg config) []op {
 
 func baseAlphabet(a func(id string, normal bool) *mode) []op {
 	return []op{
-		{Kind: "add", Mode: a("a", true)},
+		{Kind: "add", Mode: &mode{ID: "a", Title: "ta", Normal: true, Desc: "d", Volt: 240, Segs: []int{5, 7}}},
 		{Kind: "add", Mode: a("b", true)},
 		{Kind: "add", Mode: a("b", false)},
 		{Kind: "create", Mode: &mode{Title: "gen"}, Cands: tenCands()},
@@ -116,6 +117,7 @@ func baseAlphabet(a func(id string, normal bool) *mode) []op {
 		{Kind: "s.update", Mode: a("b", true), HasMask: true, Mask: []string{"normal"}},
 		{Kind: "update", Mode: &mode{ID: "a", Title: "x", Normal: true}, HasMask: true, Mask: []string{"title"}},
 		{Kind: "s.update", Mode: &mode{ID: "a", Title: "y", Start: 77}},
+		{Kind: "s.update", Mode: &mode{ID: "a", Desc: "e", Volt: 110, Segs: []int{9}}, HasMask: true, Mask: []string{"description", "voltage", "segments"}},
 		{Kind: "delete", ID: "a"},
 		{Kind: "s.delete", ID: "b"},
 		{Kind: "delete", ID: "b", AllowMissing: true},
@@ -167,12 +169,21 @@ func (rn *runner) exhaustive(cfg config, tie *lib.Tie, maxLen int) {
 
 var idPool = []string{"a", "b", "c", "ab", cand(0, 0), cand(0, 1), cand(1, 0), cand(2, 0)}
 var titles = []string{"", "t", "eco", "é"}
-var paths = []string{"id", "title", "normal", "start_time"}
+var paths = []string{"id", "title", "normal", "start_time", "description", "voltage", "segments"}
 
 func genMode(r *rand.Rand, id string) *mode {
 	m := &mode{ID: id, Title: titles[r.Intn(len(titles))], Normal: r.Intn(3) == 0}
 	if r.Intn(4) == 0 {
 		m.Start = int64(1 + r.Intn(50))
+	}
+	if r.Intn(3) == 0 {
+		m.Desc = titles[r.Intn(len(titles))]
+	}
+	if r.Intn(3) == 0 {
+		m.Volt = []int{110, 230, 240}[r.Intn(3)]
+	}
+	for r.Intn(3) == 0 && len(m.Segs) < 3 {
+		m.Segs = append(m.Segs, 1+r.Intn(9))
 	}
 	return m
 }
@@ -422,7 +433,27 @@ func (rn *runner) stress(r *rand.Rand, mon *lib.Monitor, rounds int) {
 				}
 			}
 		}
-		checkInvariants(mon, "quiescence", w.snapshot(), changed, input)
+		scratch := lib.NewMonitor("scratch", "")
+		checkInvariants(scratch, "quiescence", w.snapshot(), changed, input)
+		if len(scratch.Violations) > 0 {
+			// confirm by re-running the same goroutine programs
+			mon.Count("violation-candidates")
+			confirmed := map[string]bool{}
+			for try := 0; try < 300 && len(confirmed) == 0; try++ {
+				again := lib.NewMonitor("scratch", "")
+				replayConcurrent(again, progs)
+				for _, v := range again.Violations {
+					confirmed[v.Signature] = true
+				}
+			}
+			for _, v := range scratch.Violations {
+				if confirmed[v.Signature] {
+					mon.Violate(v.Signature, v.What, v.Input, v.Expected, v.Observed)
+				} else {
+					mon.Count("unconfirmed:" + v.Signature)
+				}
+			}
+		}
 	}
 }
 
@@ -441,7 +472,31 @@ func (rn *runner) overlaps(r *rand.Rand, tie *lib.Tie, mon *lib.Monitor, rounds 
 		} else {
 			mon.Count("not-forced:gate-not-parked")
 		}
-		found, order, lines := checkOverlap(mon, ov, obs)
+		// a timing-sensitive family confirms itself: a violating round is re-run (same prefix, gate and
+		// queued calls) and only reported when it violates again with the same signature
+		scratch := lib.NewMonitor("scratch", "")
+		found, order, lines := checkOverlap(scratch, ov, obs)
+		if len(scratch.Violations) > 0 {
+			mon.Count("violation-candidates")
+			confirmed := map[string]bool{}
+			for try := 0; try < 20 && len(confirmed) < len(scratch.Violations); try++ {
+				again := lib.NewMonitor("scratch", "")
+				checkOverlap(again, ov, runOverlap(ov))
+				for _, v := range again.Violations {
+					confirmed[v.Signature] = true
+				}
+			}
+			for _, v := range scratch.Violations {
+				if confirmed[v.Signature] {
+					mon.Violate(v.Signature, v.What, v.Input, v.Expected, v.Observed)
+				} else {
+					mon.Count("unconfirmed:" + v.Signature)
+				}
+			}
+			if len(confirmed) == 0 {
+				continue // not reproducible: neither a violation nor a tie case
+			}
+		}
 		tie.Count("class:" + ov.Class)
 		if rn.drv == nil || lines == nil {
 			continue
@@ -485,6 +540,9 @@ func (rn *runner) overlaps(r *rand.Rand, tie *lib.Tie, mon *lib.Monitor, rounds 
 		if j := indexByte(last, ' '); j > 0 {
 			modelFinal = last[j+1:]
 		}
+		if j := strings.Index(modelFinal, " events="); j >= 0 {
+			modelFinal = modelFinal[:j] // the forced-overlap rounds do not follow the streams
+		}
 		tie.Record(key, obs.Forced, map[string]any{"overlap": ov, "serial_order_found": found},
 			fmt.Sprint(modelOuts, " || ", modelFinal), fmt.Sprint(codeOuts, " || ", obs.Final))
 	}
@@ -508,12 +566,12 @@ func main() {
 	rn := &runner{f: f}
 	exLen := f.N(3, 4)
 	ex := res.Tie("electric-exhaustive", "K2",
-		fmt.Sprintf("ALL operation sequences of length <= %d over a 27-operation alphabet (Model API and both servers; add/create/update with and without masks/delete with and without allow-missing/change/clear/set-active/find over mode ids a, b, c, one generated id, and the placeholder active mode's own id — \"\" by default — for every Model-API operation that takes an id) on NewModel(), and all sequences of length <= %d from three configured initial states (WithInitialMode + WithInitialActiveMode: placeholder naming no mode / a copy of an initial mode / the id of a mode added later); after every step the result and the whole observable state (sorted modes, active mode, normal mode) are compared with the Lean model; distinct = distinct (initial state, operation prefix)", exLen, exLen-1))
+		fmt.Sprintf("ALL operation sequences of length <= %d over a 28-operation alphabet (Model API and both servers; add/create/update with and without masks/delete with and without allow-missing/change/clear/set-active/find over mode ids a, b, c, one generated id, and the placeholder active mode's own id — \"\" by default — for every Model-API operation that takes an id) on NewModel(), and all sequences of length <= %d from three configured initial states (WithInitialMode + WithInitialActiveMode: placeholder naming no mode / a copy of an initial mode / the id of a mode added later); after every step the result and the whole observable state (sorted modes, active mode, normal mode) and the events delivered to PullModes / PullActiveMode subscribers are compared with the Lean model; distinct = distinct (initial state, operation prefix)", exLen, exLen-1))
 	ex.Exhaustive = true
 	tie := res.Tie("electric-random", "K1",
-		"random operation sequences (length 1-40) from one PRNG, 40% of them from a random InitOk configuration (0-3 initial modes, placeholder active mode with id \"\"/fresh/existing/future), over 8 ids incl. ids the scripted RNG will generate plus \"\" and the placeholder's id as arguments, random masks (nil, empty, subsets of id/title/normal/start_time, unknown path), both API levels, documented contract panics, id-generation retries and exhaustion; every step's result and whole observable state compared with the Lean model; distinct = distinct operation prefix")
+		"random operation sequences (length 1-40) from one PRNG, 40% of them from a random InitOk configuration (0-3 initial modes, placeholder active mode with id \"\"/fresh/existing/future), over 8 ids incl. ids the scripted RNG will generate plus \"\" and the placeholder's id as arguments, random masks (nil, empty, subsets of id/title/normal/start_time/description/voltage/segments, unknown path), both API levels, documented contract panics, id-generation retries and exhaustion; every step's result, whole observable state and stream events compared with the Lean model; distinct = distinct operation prefix")
 	rn.mon = res.Monitor("electric-invariants",
-		"after EVERY step of every sequence on the real model, with plain Go bookkeeping as oracle: I1 at most one normal mode; I2 a delete of the active id fails and keeps the mode; I3 once changed the active id is in modes; clear selects the normal mode / NotFound; a successful switch to a different id stamps start_time = clock now; delete of an absent id = NotFound, or OK with allow-missing; a failed operation changes nothing; no panic other than the two documented contract panics; non-trivial = more than one step")
+		"after EVERY step of every sequence on the real model, with plain Go bookkeeping as oracle: I1 at most one normal mode; I2 a delete of the active id fails and keeps the mode; I3 once changed the active id is in modes; clear selects the normal mode / NotFound; a successful switch to a different id stamps start_time = clock now; delete of an absent id = NotFound, or OK with allow-missing; a failed operation changes nothing; no panic other than the two documented contract panics; PullModes / PullActiveMode followed from the model's creation: every expected event arrives, the subscriber's folded view has at most one normal mode after every event and equals Modes() at every operation boundary, an active-mode event is the active mode and names a stored mode; non-trivial = more than one step")
 	stress := res.Monitor("electric-stress",
 		"2-4 goroutines issue 5-24 random operations each on one shared model (Model API and servers mixed); I1 and I3 evaluated at quiescence, no panic; one evaluation = one round")
 	k4 := res.Tie("electric-forced-overlap", "K4",
@@ -612,7 +670,7 @@ func replay(f lib.Flags) int {
 	m := lib.NewMonitor("replay", "")
 	if len(in.Ops) > 0 {
 		fmt.Println("initial state:", in.Init.line())
-		obs := runSeq(in.Init, in.Ops)
+		obs := runSeqMon(m, in.Init, in.Ops)
 		for i, st := range obs {
 			fmt.Printf("step %d: %s -> %s %s\n", i, st.Op.line(), st.Out, st.State)
 		}
